@@ -367,7 +367,9 @@ func (g *progGen) expr(d int) string {
 		return g.matchExpr(d)
 	default:
 		// odd but grammatical shapes
-		return []string{"1(2)", "[1].x.y", "\"s\".length()", "null.a.b", "{}.k", "x.push(x)", "1 = 2", "f() = 3", "[1,2] < 3", "$zz.a", "printf()", "json()", "(1)(2)", "-\"s\""}[t.Draw(14)]
+		return []string{"1(2)", "[1].x.y", "\"s\".length()", "null.a.b", "{}.k", "x.push(x)", "1 = 2", "f() = 3", "[1,2] < 3", "$zz.a", "printf()", "json()", "(1)(2)", "-\"s\"",
+			// methods detached from their receiver and called through another route
+			"{}.pluck(\"pluck\")", "{}.pluck(\"length\", \"pluck\").pluck(\"x\")", "obj.pluck(\"pluck\").pluck", "json({}.pluck(\"length\"))", "[{}.pluck(\"pluck\")]", "{}.pluck(\"pluck\").pluck(\"pluck\")"}[t.Draw(20)]
 	}
 }
 
@@ -741,6 +743,17 @@ func resourceCases() []*ProgCase {
 			&ProgCase{Note: fmt.Sprintf("recursion inside %d nested loops", n), Prog: "function f(n) { " + rep("for (x in [1]) { ", n) + "f(n + 1)" + rep(" }", n) + " }\nBEGIN { f(0) }"},
 			&ProgCase{Note: fmt.Sprintf("recursion inside %d nested call arguments", n), Prog: "function g(x) { return x }\nfunction f(n) { return " + rep("g(", n) + "f(n + 1)" + rep(")", n) + " }\nBEGIN { f(0) }"},
 			&ProgCase{Note: fmt.Sprintf("mutual recursion inside %d nested object literals", n), Prog: "function f(n) { return " + rep("{ a: ", n) + "h(n + 1)" + rep(" }", n) + " }\nfunction h(n) { return f(n) }\n{ f(0) }", Inputs: in},
+		)
+	}
+	// built-in methods detached from their receiver (pluck copies prototype
+	// members into an ordinary object) and then called through another route
+	for _, m := range []string{"pluck", "length"} {
+		for _, call := range []string{"v()", "v(\"a\")", "v(1, 2)", "print v", "x = v\n x(\"a\")", "print json(v)", "print [v]", "y = {f: v}"} {
+			cs = append(cs, &ProgCase{Note: "detached method " + m + ": " + call, Prog: "BEGIN { for (k, v in {}.pluck(\"" + m + "\")) { " + call + " } }"})
+		}
+		cs = append(cs,
+			&ProgCase{Note: "detached method " + m + " via match binding", Prog: "BEGIN { match ({}.pluck(\"" + m + "\")) { o => { for (k, v in o) { print v(\"q\") } } } }"},
+			&ProgCase{Note: "detached method " + m + " from a selector", Prog: "{ for (k, v in $) { print v(\"a\") } }", Selectors: []string{"{}.pluck(\"" + m + "\")"}, Inputs: in},
 		)
 	}
 	// runaway recursion through every mix of call and match frames, entered from
